@@ -33,6 +33,11 @@ type Entry struct {
 	Parent, State, Body []byte
 	// Generic data root.
 	Data []byte
+	// AddrPath / AddrKey, when set, override the population-based addressing (accounts created at run time).
+	AddrPath string
+	AddrKey  []byte
+	// KeyPad appends junk bytes to the public key used for addressing.
+	KeyPad int
 }
 
 // Op is one client request.
@@ -113,6 +118,12 @@ func GenEntry(acct int, domain []byte, uniq uint64) Entry {
 }
 
 func (e *Entry) addr(pop *Population) (string, []byte) {
+	if e.AddrPath != "" || e.AddrKey != nil {
+		return e.AddrPath, e.AddrKey
+	}
+	if e.KeyPad > 0 && e.Acct >= 0 {
+		return "", append(append([]byte{}, pop.Accts[e.Acct].PubKey...), make([]byte, e.KeyPad)...)
+	}
 	if e.Acct < 0 {
 		if e.ByKey {
 			return "", h32("unknown key", e.Acct)[:24+24]
